@@ -27,6 +27,7 @@ type MsgOpts struct {
 	NoExtras    bool // only the fingerprinted / mandatory headers
 	ValidStatus bool // replies use status codes 100..699 only
 	ManyHdrs    bool // 10..50 additional header lines (long header blocks)
+	ManyMax     int  // upper bound for ManyHdrs (0: 50)
 }
 
 type hdrKind struct {
@@ -208,7 +209,11 @@ func (g *G) Msg(o MsgOpts) MsgSpec {
 		}
 	}
 	if o.ManyHdrs {
-		for r := g.R.Range(10, 50); r > 0; r-- {
+		mx := o.ManyMax
+		if mx <= 0 {
+			mx = 50
+		}
+		for r := g.R.Range(mx/5, mx); r > 0; r-- {
 			if g.R.Chance(1, 2) {
 				items = append(items, hdrKind{long: ""})
 			} else {
